@@ -259,8 +259,9 @@ fn random_case(r: &mut Rng, id: String, dirty: bool) -> Case {
             6 => if r.chance(1, 2) {
                 let n = *r.pick(&[&b"0"[..], b"0", b"1", b"1", b"2", b"15", b"16"]);
                 ops.push(cmd_op(c, &[b"SELECT", n]));
-                // queued under MULTI it is a no-op at EXEC (class select-in-multi of C18)
-                if !intx[cu] && n != b"16" { dbs[cu] = String::from_utf8_lossy(n).parse().unwrap(); }
+                // queued under MULTI it takes effect at EXEC (1ecc022) - unless the EXEC is aborted or the
+                // queue DISCARDed: from then on the generator no longer knows the database (-1: no EVAL)
+                if n != b"16" { dbs[cu] = if intx[cu] { -1 } else { String::from_utf8_lossy(n).parse().unwrap() }; }
             },
             _ => {
                 if let Some(cmd) = gen_cmd(r, &mut g3, &mut st, dirty, intx[cu], dbs[cu] == 0) {
@@ -348,8 +349,10 @@ pub fn fixed_class_witnesses() -> Vec<Case> {
 pub fn witnesses() -> Vec<Case> {
     let mut w = vec![
         // expiry is not logged and TTLs are relative: gone live after 600 ms, set again by the redo
-        { let mut c = witness("w-expired-unlogged", &[&[b"SET", b"k", b"v", b"PX", b"300"]], 1, &kd(&[b"k"]));
-          let n = c.ops.len(); c.ops.insert(n - 2, sleep_op(600)); c },
+        { let mut c = witness("w-expired-unlogged", &[&[b"SET", b"k", b"v", b"PX", b"1500"]], 1, &kd(&[b"k"]));
+          let n = c.ops.len(); c.ops.insert(n - 2, sleep_op(1800)); c },   // (1.5 s: the redo side must still see the key under machine load)
+        witness("w-tx-select", &[&[b"MULTI"], &[b"SET", b"a", b"1"], &[b"SELECT", b"1"], &[b"SET", b"b", b"2"], &[b"GET", b"b"], &[b"EXEC"],
+                                  &[b"APPEND", b"b", b"3"]], 1, &{ let mut d = kd(&[b"a", b"b"]); d.push(V::cmd(&[b"SELECT", b"1"])); d.extend(kd(&[b"a", b"b"])); d.push(V::cmd(&[b"SELECT", b"0"])); d }),
         witness("w-tx-logged", &[&[b"MULTI"], &[b"SET", b"k", b"a"], &[b"RPUSH", b"l", b"x", b"y"], &[b"GET", b"k"], &[b"EXEC"],
                                   &[b"MULTI"], &[b"SET", b"k", b"b"], &[b"DISCARD"]], 1, &kd(&[b"k", b"l"])),
         { let src = script_of(&[vec![v(b"SET"), v(b"k"), v(b"v")]], false); let sha = crate::c12::sha1_hex(&src);
@@ -630,10 +633,15 @@ fn executed(c: &Case, outs: &[Vec<Tok>], upto: usize) -> Vec<Done> {
             b"EXEC" => {
                 let q = queue.remove(&conn).unwrap_or_default();
                 if let Some(V::Array(reps)) = &reply {
-                    let d = *db.get(&conn).unwrap_or(&0);
+                    let mut d = *db.get(&conn).unwrap_or(&0);
                     for (j, qreq) in q.into_iter().enumerate() {
                         let nm = req_name(&qreq);
-                        done.push(Done { req: qreq, name: nm, reply: reps.get(j).cloned(), db: d, op: k });
+                        let rep = reps.get(j).cloned();
+                        done.push(Done { req: qreq.clone(), name: nm.clone(), reply: rep.clone(), db: d, op: k });
+                        // a queued SELECT takes effect at EXEC (1ecc022): what follows runs in the new database
+                        if nm == b"SELECT" && matches!(&rep, Some(V::Simple(_))) {
+                            if let V::Array(l) = &qreq { if let Some(V::Bulk(a)) = l.get(1) { if let Ok(n) = String::from_utf8_lossy(a).parse::<i64>() { d = n; db.insert(conn, n); } } }
+                        }
                     }
                 }
                 continue;
